@@ -642,3 +642,283 @@ fn c08_cache_one_frame() {
 fn c08_cache_two_frames() {
     c08_cache_small::<true>();
 }
+
+// ---------------------------------------------------------------- C12: corrupted images never panic
+
+/// A member entry whose *every* field is arbitrary (what a corrupted file holds).
+fn any_member() -> Member {
+    Member {
+        obfuscated_name_offset: kani::any(),
+        startline: kani::any(),
+        endline: kani::any(),
+        original_class_offset: kani::any(),
+        original_file_offset: kani::any(),
+        original_name_offset: kani::any(),
+        original_startline: kani::any(),
+        original_endline: kani::any(),
+        params_offset: kani::any(),
+    }
+}
+
+/// Is `sub` a sub-slice of `whole` (pointer range check inside one object)?
+fn within(whole: &[u8], sub: &str) -> bool {
+    if sub.is_empty() {
+        return true;
+    }
+    let w0 = whole.as_ptr() as usize;
+    let s0 = sub.as_ptr() as usize;
+    s0 >= w0 && s0 + sub.len() <= w0 + whole.len()
+}
+
+/// C12 (frame kernels): with *arbitrary* numeric fields (no writer invariant:
+/// what a corrupted file holds) and string offsets of a fixed corruption shape,
+/// both cache frame iterators return without panic or arithmetic overflow for
+/// every frame line, and every string they return is a slice of the string
+/// section or of the query. Default Kani checks (overflow, bounds, pointer
+/// validity) are on. Offsets are concrete per harness (symbolic offsets make
+/// the string reads' loop bounds symbolic: 30 min, not finished), numbers are
+/// fully symbolic.
+/// OOB = 61 (== section length), MID = 5 (inside "p.Out$In": reads the byte O = 79 as a length, which is out of bounds).
+const OOB: u32 = 61;
+const MID: u32 = 5;
+
+fn c12_kernel(class_off: u32, file_off: u32, name_off: u32, by_params: bool, unreadable: bool) {
+    let mut m = any_member();
+    m.obfuscated_name_offset = S_M;
+    m.original_class_offset = class_off;
+    m.original_file_offset = file_off;
+    m.original_name_offset = name_off;
+    m.params_offset = NONE;
+    let ents = [m];
+    let cache = cache_of(&[], &[], &[], &STRINGS);
+    let line: usize = kani::any();
+    let mut frame = StackFrame { class: FRAME_CLASS, method: "m", line, file: Some(FRAME_FILE), parameters: if by_params { Some("I") } else { None } };
+    let mut it = ents.iter();
+    let r = if by_params { iterate_without_lines(&cache, &mut frame, &mut it) } else { iterate_with_lines(&cache, &mut frame, &mut it) };
+    if let Some(f) = &r {
+        assert!(within(&STRINGS, f.class) || f.class.as_ptr() == FRAME_CLASS.as_ptr(), "C12: class string from nowhere");
+        assert!(within(&STRINGS, f.method), "C12: method string from nowhere");
+        if let Some(file) = f.file {
+            assert!(within(&STRINGS, file) || file.as_ptr() == FRAME_FILE.as_ptr() || within(FRAME_CLASS.as_bytes(), file), "C12: file string from nowhere");
+        }
+        assert!(!unreadable, "C12: frame produced from an unreadable string");
+        kani::cover!(by_params || f.line == usize::MAX, "saturated line");
+    }
+    kani::cover!(r.is_some() != unreadable, "expected outcome reached");
+    kani::cover!(ents[0].endline == 0 && ents[0].startline > 0 && ents[0].original_endline != u32::MAX, "inconsistent range fields");
+}
+
+macro_rules! c12_k {
+    ($name:ident, $c:expr, $f:expr, $n:expr, $bp:expr, $un:expr) => {
+        #[kani::proof]
+        #[kani::stub(watto::StringTable::read, crate::verif_support::stubs::strtab_read_model)]
+        #[kani::unwind(24)]
+        fn $name() {
+            c12_kernel($c, $f, $n, $bp, $un);
+        }
+    };
+}
+c12_k!(c12_kernel_plain, NONE, NONE, S_F, false, false);
+c12_k!(c12_kernel_foreign_synth, S_FOREIGN, S_SYNTH, S_F, false, false);
+c12_k!(c12_kernel_bad_class, OOB, S_FILE, S_F, false, false);
+c12_k!(c12_kernel_bad_file, NONE, MID, S_F, false, true);
+c12_k!(c12_kernel_bad_name, S_FOREIGN, NONE, OOB, false, true);
+c12_k!(c12_kernel_params_bad_class, MID, NONE, S_F, true, false);
+c12_k!(c12_kernel_params_bad_name, NONE, NONE, MID, true, true);
+
+/// C12: `get_class_members` / `get_class_members_by_params` with arbitrary
+/// offset and length never panic and return a sub-slice of the section (or None).
+#[kani::proof]
+#[kani::unwind(4)]
+fn c12_class_member_ranges() {
+    let ms: [Member; 3] = [Member::default(), Member::default(), Member::default()];
+    let n: usize = kani::any();
+    kani::assume(n <= 3);
+    let class = Class {
+        obfuscated_name_offset: 0,
+        original_name_offset: 0,
+        file_name_offset: NONE,
+        members_offset: kani::any(),
+        members_len: kani::any(),
+        members_by_params_offset: kani::any(),
+        members_by_params_len: kani::any(),
+    };
+    let cache = cache_of(&[], &ms[..n], &ms[..n], &STRINGS);
+    if let Some(s) = cache.get_class_members(&class) {
+        assert!(s.len() == class.members_len as usize && class.members_offset as usize + s.len() <= n, "C12: member range outside the section");
+    } else {
+        assert!(class.members_offset as u64 + class.members_len as u64 > n as u64, "C12: valid member range refused");
+    }
+    if let Some(s) = cache.get_class_members_by_params(&class) {
+        assert!(s.len() == class.members_by_params_len as usize && class.members_by_params_offset as usize + s.len() <= n, "C12: by-params range outside the section");
+    } else {
+        assert!(class.members_by_params_offset as u64 + class.members_by_params_len as u64 > n as u64, "C12: valid by-params range refused");
+    }
+    kani::cover!(class.members_offset == u32::MAX && class.members_len == u32::MAX, "extreme offset and length");
+}
+
+/// C12: `find_range_by_binary_search` with an *arbitrary* (inconsistent, not
+/// sorted) comparison table stays inside the slice and never panics.
+#[kani::proof]
+#[kani::unwind(8)]
+fn c12_find_range_arbitrary_order() {
+    let mk = |i: u32| Member { startline: i, ..Default::default() };
+    let ms: [Member; 4] = [mk(0), mk(1), mk(2), mk(3)];
+    let len: usize = kani::any();
+    kani::assume(len <= 4);
+    let table: [u8; 4] = kani::any();
+    let r = ProguardCache::find_range_by_binary_search(&ms[..len], |m| match table[m.startline as usize] % 3 {
+        0 => Ordering::Less,
+        1 => Ordering::Equal,
+        _ => Ordering::Greater,
+    });
+    if let Some(r) = r {
+        assert!(r.len() <= len, "C12: range longer than the slice");
+    }
+    kani::cover!(r.is_some() && table[0] % 3 == 2 && table[3] % 3 == 0, "inconsistent order with a match");
+}
+
+// ---------------------------------------------------------------- C10: pinned 5.5.0 reader == current reader
+use crate::verif_pinned as pinned;
+
+fn pinned_member(m: &Member) -> pinned::raw::Member {
+    pinned::raw::Member {
+        obfuscated_name_offset: m.obfuscated_name_offset,
+        startline: m.startline,
+        endline: m.endline,
+        original_class_offset: m.original_class_offset,
+        original_file_offset: m.original_file_offset,
+        original_name_offset: m.original_name_offset,
+        original_startline: m.original_startline,
+        original_endline: m.original_endline,
+        params_offset: m.params_offset,
+    }
+}
+
+static PINNED_HEADER: pinned::raw::Header = pinned::raw::Header { magic: 0x43475250, version: 1, num_classes: 0, num_members: 0, num_members_by_params: 0, string_bytes: 61 };
+
+fn frames_eq(a: &Option<StackFrame>, b: &Option<StackFrame>) -> bool {
+    match (a, b) {
+        (None, None) => true,
+        (Some(a), Some(b)) => str_eq(a.class, b.class) && str_eq(a.method, b.method) && a.line == b.line && opt_str_eq(a.file, b.file) && a.parameters == b.parameters,
+        _ => false,
+    }
+}
+
+/// C10 (reader half, frame kernels): on every member entry a version-1 writer
+/// can have produced (documented encoding, numbers < 2^32-1) the pinned 5.5.0
+/// reader and the current reader give the same frame, for every frame line, by
+/// line and by parameters. A change of sentinel, field meaning or line rule in
+/// the current reader without a version bump makes the two disagree.
+fn c10_kernel_diff(shape: u8, by_params: bool) {
+    let m = member_of_shape(shape);
+    kani::assume(writer_invariant(&m));
+    kani::assume(m.original_endline == u32::MAX || m.original_endline < u32::MAX - 1);
+    let pm = pinned_member(&m);
+    let line: usize = kani::any();
+    // the pinned reader computes `original_startline + line - startline` unchecked; lines far
+    // beyond 2^32 overflow there (a fixed defect), so the common domain is line < 2^63
+    kani::assume(line < (1usize << 63));
+    let frame_file = if kani::any() { Some(FRAME_FILE) } else { None };
+    let params = if by_params { Some("I") } else { None };
+    let cache = cache_of(&[], &[], &[], &STRINGS);
+    let pcache = pinned::raw::ProguardCache { header: &PINNED_HEADER, classes: &[], members: &[], members_by_params: &[], string_bytes: &STRINGS };
+    let ents = [m];
+    let pents = [pm];
+    let mut it = ents.iter();
+    let mut pit = pents.iter();
+    let mut f1 = StackFrame { class: FRAME_CLASS, method: "m", line, file: frame_file, parameters: params };
+    let mut f2 = StackFrame { class: FRAME_CLASS, method: "m", line, file: frame_file, parameters: params };
+    let (a, b) = if by_params {
+        (iterate_without_lines(&cache, &mut f1, &mut it), pinned::iterate_without_lines(&pcache, &mut f2, &mut pit))
+    } else {
+        (iterate_with_lines(&cache, &mut f1, &mut it), pinned::iterate_with_lines(&pcache, &mut f2, &mut pit))
+    };
+    assert!(frames_eq(&a, &b), "C10: the current reader answers a version-1 entry differently from the pinned 5.5.0 reader");
+    kani::cover!(a.is_some() && ents[0].endline > ents[0].startline, "multi-line range applies");
+    kani::cover!(a.is_none() || by_params, "entry filtered out");
+}
+
+macro_rules! c10_k {
+    ($name:ident, $shape:expr, $bp:expr) => {
+        #[kani::proof]
+        #[kani::stub(watto::StringTable::read, crate::verif_support::stubs::strtab_read_model)]
+        #[kani::unwind(20)]
+        fn $name() {
+            c10_kernel_diff($shape, $bp);
+        }
+    };
+}
+c10_k!(c10_kernel_diff_own_nofile, 0, false);
+c10_k!(c10_kernel_diff_own_file, 1, false);
+c10_k!(c10_kernel_diff_own_synth, 2, false);
+c10_k!(c10_kernel_diff_foreign_nofile, 3, false);
+c10_k!(c10_kernel_diff_foreign_file, 4, false);
+c10_k!(c10_kernel_diff_foreign_synth, 5, false);
+c10_k!(c10_kernel_diff_params_own, 1, true);
+c10_k!(c10_kernel_diff_params_foreign, 3, true);
+
+/// C10 (reader half, parse): on every buffer the pinned and the current parser
+/// give the same verdict: the same error kind, or the same section split.
+#[kani::proof]
+fn c10_parse_diff_96() {
+    let buf: super::raw::verif_harness::Aligned<96> = super::raw::verif_harness::Aligned(kani::any());
+    let len: usize = kani::any();
+    kani::assume(len <= 96);
+    let data = &buf.0[..len];
+    let a = ProguardCache::parse(data);
+    let b = pinned::raw::ProguardCache::parse(data);
+    match (a, b) {
+        (Ok(c), Ok(p)) => {
+            assert!(c.classes.len() == p.classes.len() && c.members.len() == p.members.len() && c.members_by_params.len() == p.members_by_params.len(), "C10: section counts differ");
+            assert!(c.classes.as_ptr() as usize == p.classes.as_ptr() as usize && c.members.as_ptr() as usize == p.members.as_ptr() as usize
+                && c.members_by_params.as_ptr() as usize == p.members_by_params.as_ptr() as usize, "C10: section offsets differ");
+            assert!(c.string_bytes.as_ptr() == p.string_bytes.as_ptr() && c.string_bytes.len() == p.string_bytes.len(), "C10: string section differs");
+            kani::cover!(c.classes.len() == 1 && c.members.len() == 1, "image with a class and a member accepted by both");
+        }
+        (Err(e1), Err(e2)) => {
+            let (k1, k2) = (e1.kind(), e2.kind());
+            core::mem::forget(e1);
+            core::mem::forget(e2);
+            assert!(k1 == k2, "C10: the two readers reject with different error kinds");
+            kani::cover!(k1 == CacheErrorKind::WrongVersion, "both reject a wrong version");
+        }
+        (Ok(_), Err(e)) => {
+            core::mem::forget(e);
+            panic!("C10: the current reader accepts a file the pinned reader rejects");
+        }
+        (Err(e), Ok(_)) => {
+            core::mem::forget(e);
+            panic!("C10: the current reader rejects a file the pinned reader accepts");
+        }
+    }
+}
+
+/// C10 (reader half, lookups): member-range slicing and range search agree.
+#[kani::proof]
+#[kani::unwind(8)]
+fn c10_lookup_diff() {
+    let mk = |i: u32| Member { startline: i, ..Default::default() };
+    let ms: [Member; 4] = [mk(0), mk(1), mk(2), mk(3)];
+    let pms: [pinned::raw::Member; 4] = [pinned_member(&ms[0]), pinned_member(&ms[1]), pinned_member(&ms[2]), pinned_member(&ms[3])];
+    let len: usize = kani::any();
+    kani::assume(len <= 4);
+    let lo: usize = kani::any();
+    let hi: usize = kani::any();
+    kani::assume(lo <= hi && hi <= len);
+    let ord = |i: usize| if i < lo { Ordering::Less } else if i < hi { Ordering::Equal } else { Ordering::Greater };
+    let a = ProguardCache::find_range_by_binary_search(&ms[..len], |m| ord(m.startline as usize));
+    let b = pinned::raw::ProguardCache::find_range_by_binary_search(&pms[..len], |m| ord(m.startline as usize));
+    match (a, b) {
+        (None, None) => {}
+        (Some(x), Some(y)) => assert!(x.len() == y.len() && x[0].startline == y[0].startline, "C10: range search differs"),
+        _ => panic!("C10: range search differs"),
+    }
+    let class = Class { obfuscated_name_offset: 0, original_name_offset: 0, file_name_offset: NONE, members_offset: kani::any(), members_len: kani::any(), members_by_params_offset: kani::any(), members_by_params_len: kani::any() };
+    let pclass = pinned::raw::Class { obfuscated_name_offset: 0, original_name_offset: 0, file_name_offset: NONE, members_offset: class.members_offset, members_len: class.members_len,
+        members_by_params_offset: class.members_by_params_offset, members_by_params_len: class.members_by_params_len };
+    let cache = cache_of(&[], &ms[..len], &ms[..len], &STRINGS);
+    let pcache = pinned::raw::ProguardCache { header: &PINNED_HEADER, classes: &[], members: &pms[..len], members_by_params: &pms[..len], string_bytes: &STRINGS };
+    assert!(cache.get_class_members(&class).map(|s| s.len()) == pcache.get_class_members(&pclass).map(|s| s.len()), "C10: member range slicing differs");
+    assert!(cache.get_class_members_by_params(&class).map(|s| s.len()) == pcache.get_class_members_by_params(&pclass).map(|s| s.len()), "C10: by-params range slicing differs");
+}
